@@ -252,7 +252,11 @@ def handle (j : Json) : Json :=
         | .error _ => pure none)
       let asis := ((j.getObjVal? "asis").toOption.bind (·.getBool?.toOption)).getD false
       let wrapped := ((j.getObjVal? "wrapped").toOption.bind (·.getBool?.toOption)).getD false
-      let env : Env Float := { dfx := if asis then { concatNilText := true } else .none, constants := consts }
+      let failOn ← (match j.getObjVal? "failOn" with
+        | .ok .null => pure none
+        | .ok c => do let r ← decVal c; pure (some r)
+        | .error _ => pure none)
+      let env : Env Float := { dfx := if asis then { concatNilText := true } else .none, constants := consts, failOn := failOn }
       let data : Row Float := if wrapped then [("root", .obj doc)] else doc
       pure (outcome id (apiResult (execQuery env data {} q)))
     | "dq2bt" => do
